@@ -1,7 +1,8 @@
 // UNIT RBK — BlockReader's block store (C12: whatever the block size, the block handed out for offset `bo` holds exactly the
 // bytes [bo*blocksz, min((bo+1)*blocksz, filesz)) of the file): read_block_File (plain files), store_block_in_storage,
 // store_block_in_LRU_cache, and read_block with its two caches.  The file handle and the two cache crates are assumed by their
-// key/value views; the readers of compressed / archived files are assumed to meet the same contract (C05, not applicable).
+// key/value views; the readers of compressed / archived files are assumed to meet the same contract (C05, not applicable; the
+// fill loops of the gzip and bzip2 readers are under contract in unit RGZ).
 #![feature(allocator_api)]
 #![allow(unused_imports, non_camel_case_types, dead_code, unused_variables, unused_parens, unused_mut, unused_assignments, non_snake_case, unused_labels)]
 use vstd::prelude::*;
